@@ -151,6 +151,92 @@ def pending(st):
     return bool(timers[0][0])
 
 
+def _split_update(b):
+    """(withdrawn, [attribute octets], nlri) of a well-framed UPDATE body, or None"""
+    if len(b) < 4:
+        return None
+    wl = struct.unpack('!H', b[:2])[0]
+    if 4 + wl > len(b):
+        return None
+    al = struct.unpack('!H', b[2 + wl:4 + wl])[0]
+    sec = b[4 + wl:4 + wl + al]
+    if len(sec) != al:
+        return None
+    parts, i = [], 0
+    while i < len(sec):
+        if i + 3 > len(sec):
+            return None
+        ext = sec[i] & 0x10
+        if ext and i + 4 > len(sec):
+            return None
+        ln = struct.unpack('!H', sec[i + 2:i + 4])[0] if ext else sec[i + 2]
+        j = i + (4 if ext else 3) + ln
+        if j > len(sec):
+            return None
+        parts.append(sec[i:j])
+        i = j
+    return b[2:2 + wl], parts, b[4 + wl + al:]
+
+
+def _join_update(wd, parts, nlri):
+    sec = b''.join(parts)
+    return struct.pack('!H', len(wd)) + wd + struct.pack('!H', len(sec)) + sec + nlri
+
+
+def reference_pool(lits, rng, thorough):
+    """'good traffic' whose decoding a hostile message must not change, and hostile messages that exercise the same
+    decoder paths.  Per well-formed UPDATE of the unit tests that carries MP_REACH / MP_UNREACH / LINK_STATE / tunnel
+    attributes: its attributes in their own, reversed and rotated order (attribute order is free, RFC 4271 5) and
+    well-formed NEIGHBOURS (one octet changed, still decoded without error, to a different result: another
+    protocol, family, flag, length ...); hostile = the orderings made malformed AFTER their first attributes were
+    decoded (a bad ORIGIN appended).  Returns (refs, [(hostile body, index into refs)])"""
+    from yabgp.message.update import Update
+
+    def dec(body):
+        try:
+            r = Update().parse(None, body, True, {})
+        except Exception:     # noqa
+            return None
+        if r.get('sub_error'):
+            return None
+        return repr((r.get('attr'), r.get('nlri'), r.get('withdraw')))
+    refs, pairs, seen = [], [], set()
+    for b in lits:
+        if b[:16] == b'\xff' * 16 and len(b) > 19 and b[18] == 2:
+            b = b[19:]
+        sp = _split_update(b)
+        if not sp or len(sp[1]) < 2 or len(b) > 1500:
+            continue
+        codes = [p[1] for p in sp[1]]
+        if not (set(codes) & {14, 15, 29, 22, 23, 40}) or len(set(codes)) != len(codes):
+            continue
+        mine, hostile = [], []
+        for parts in (sp[1], sp[1][::-1], sp[1][1:] + sp[1][:1]):
+            body = _join_update(sp[0], parts, sp[2])
+            base = dec(body)
+            if body in seen or base is None:
+                continue
+            seen.add(body)
+            mine.append(body)
+            hostile.append(_join_update(sp[0], parts + [bytes([0x40, 1, 1, 9])], sp[2]))
+            pos = list(range(4, len(body)))
+            if not thorough:
+                pos = rng.sample(pos, min(len(pos), 24))
+            for k in pos:
+                for dlt in (1, 255):
+                    nb = body[:k] + bytes([(body[k] + dlt) & 0xff]) + body[k + 1:]
+                    if nb in seen:
+                        continue
+                    r = dec(nb)
+                    if r is not None and r != base:
+                        seen.add(nb)
+                        mine.append(nb)
+        first = len(refs)
+        refs += mine
+        pairs += [(h, first + k) for h in hostile for k in range(len(mine))]
+    return refs, pairs
+
+
 def run(ctx):
     rng = ctx.rng
     lits = harvest()
@@ -193,6 +279,25 @@ def run(ctx):
         d0.apply(e)
     d0.apply(('data', 0, M['update_ok']))
     base_payload = repr([c for c in d0.handler.calls if c[0] == 'update_received'][-1])
+    # more good traffic (other families, BGP-LS, attribute orders): baselines taken before any hostile input
+    refs, hpairs = reference_pool(lits, rng, ctx.thorough)
+    ref_msgs = [M['update_ok']] + [MARK + struct.pack('!HB', 19 + len(r), 2) + r for r in refs]
+    ref_base = [base_payload]
+    for rm in ref_msgs[1:]:
+        dr = session.Driver()
+        for e in sc.EST_PREFIX:
+            dr.apply(e)
+        dr.apply(('data', 0, rm))
+        ups = [c for c in dr.handler.calls if c[0] == 'update_received']
+        ref_base.append(repr(ups[-1]) if ups else None)
+    ref_of = {}
+    # every malformed-after-decoding UPDATE followed by every reference of its own family (quick: a sample)
+    pairs = [(h, j + 1) for (h, j) in hpairs if ref_base[j + 1] is not None]
+    if not ctx.thorough:
+        pairs = rng.sample(pairs, min(len(pairs), 300))
+    for h, j in pairs:
+        ref_of[len(bodies)] = j
+        bodies.append((2, h))
 
     viol, traces, samples = [], [], []
     kinds = {'sub_error': 0, 'raise': 0, 'ok': 0, 'closed': 0}
@@ -213,13 +318,16 @@ def run(ctx):
         elif ty == 3 and idx % 2:
             # NOTIFICATIONs also in the OpenSent of a second session (what ended the first one must not matter)
             sname, prefix, cid = 'OpenSent (second session)', second, 1
+        ri = ref_of.get(idx, 0)
+        if ri:
+            sname, prefix, cid = 'Established', sc.EST_PREFIX, 0
         msg = MARK + struct.pack('!HB', 19 + len(body), ty) + body
         d = session.Driver()
         for e in prefix:
             d.apply(e)
         # ... and finally the TCP connection goes away (completing a close the agent started, or a peer reset):
         # the reconnect must be scheduled after that too
-        events = [('data', cid, msg), ('data', cid, M['update_ok']), ('data', cid, M['keepalive']), ('lost', cid)]
+        events = [('data', cid, msg), ('data', cid, ref_msgs[ri]), ('data', cid, M['keepalive']), ('lost', cid)]
         n += 1
         n_rep0 = len(d.handler.calls)
         st_before = d.state()
@@ -253,9 +361,9 @@ def run(ctx):
             else:
                 # the messages after it decode as before
                 ups = [c for c in d.handler.calls if c[0] == 'update_received']
-                if not ups or repr(ups[-1]) != base_payload:
+                if not ups or repr(ups[-1]) != ref_base[ri]:
                     viol.append({'what': 'decoding of the following good UPDATE changed after this body',
-                                 'body': body.hex(), 'known': None})
+                                 'body': body.hex(), 'following_update': ref_msgs[ri].hex(), 'known': None})
         if closed:
             kinds['closed'] += 1
         for r in res:
@@ -279,7 +387,7 @@ def run(ctx):
                     'capability sets: every decoded code, known/unknown families and directions, bad lengths) + random; delivered in '
                     'OpenSent/OpenConfirm/Established, followed by a known-good UPDATE and KEEPALIVE; distinct = distinct bodies',
             'samples': samples, 'mismatches': mism, 'violations': viol,
-            'extra': {'unit_test_literals': len(lits), 'bodies': len(bodies), 'model_traces': len(traces),
+            'extra': {'unit_test_literals': len(lits), 'bodies': len(bodies), 'reference_updates': len(ref_msgs), 'hostile_then_reference_pairs': len(pairs), 'model_traces': len(traces),
                       'update_in_established': kinds}}
 
 
